@@ -18,7 +18,7 @@ VARIABLES
   prof,    \* class profile, constant along a behaviour:
            \*  [online, passes (0,1, 2 = unbounded), allmem, limR, limD (-1 = unbounded),
            \*   period (TwoLevel: one more DISK unit per started period; else 0),
-           \*   perstep (SingleDisk: one DISK unit per step told)]
+           \*   perstep (unused, kept for the trace header format)]
   maxN,    \* Unknown, or the finalised number of steps
   fwd,     \* step at which the forward state in WORK stands, or Undef
   told,    \* step the initial forward has been told to advance to
@@ -204,11 +204,11 @@ Do(e) == ActClauses(e) = {} /\ ActEffect(e)
 CeilDiv(x, y) == (x + y - 1) \div y
 
 LimRam(pf) == pf.limR
+(* TwoLevel: one more DISK unit per STARTED period - a period is started by the Forward that   *)
+(* was told to run it, whether or not the forward is later finalised inside it.              *)
 LimDisk(pf, toldv, maxNv) ==
-  LET reach == IF maxNv = Unknown THEN toldv ELSE Min(toldv, maxNv) IN
   IF pf.limD < 0 THEN -1
-  ELSE pf.limD + (IF pf.period > 0 THEN CeilDiv(reach, pf.period) ELSE 0)
-               + (IF pf.perstep THEN reach ELSE 0)
+  ELSE pf.limD + (IF pf.period > 0 THEN CeilDiv(toldv, pf.period) ELSE 0)
 
 StateClausesOf(pf, r, d, toldv, maxNv, wi, wd) ==
        C("C03.ram", LimRam(pf) < 0 \/ Cardinality(DOMAIN r) <= LimRam(pf))
